@@ -549,6 +549,8 @@ def pjStep (p : PJ) (op out : String) : Except String PJ :=
   let ows := words out
   match words op with
   | "pburst" :: ws =>
+    if (kv ows "stuck-in-round").isSome then
+      .error s!"queue-stopped-answering-requests-stranded-for-ever:{pctEnc out}" else
     match kvNat ws "k", (kv ows "created").bind parseSpan, (kv ows "pass").bind parseSpan,
           (kv ows "wait").bind parseSpan, (kv ows "rej").bind parseSpan, (kv ows "other").bind parseSpan with
     | some k, some c, some pa, some w, some r, some ot =>
